@@ -18,6 +18,7 @@ import CBV.Lemmas.C19
 import CBV.Lemmas.C19Geo
 import CBV.Lemmas.C19Rim
 import CBV.Lemmas.C19Rev
+import CBV.Lemmas.C19Oval
 import CBV.Model.C19Merge
 import Mathlib.Data.List.Basic
 import Mathlib.Analysis.Real.Sqrt
@@ -904,6 +905,120 @@ example : (0 : Rat) < 9 / 10 ∧ (9 / 10 : Rat) < 1 ∧ (0 : Rat) < 1 / 2 ∧ (1
     (sketchFromSource "WrappedDisk").map (·.shell) = some [5, 6, 7, 8] := by decide +kernel
 
 end wrapped
+
+
+/-! ### round 6g — `Oval`: shell = the faces with a side on the outline -/
+
+section oval
+open CBV.C11 (P3 ovalPts frame ovalL)
+
+/-- the combinatorial half on the regenerated `quad_map` / `grid` expression of `Oval`: `shell` = the faces with a side between two
+    positions from the two `get_outer_points` lists (index ≥ 12), 16 faces, every quad index one of the 22 positions -/
+def ovalEdgeOk : Bool :=
+  match lookup "Oval" CBV.Gen.c19QuadMaps, sketchFromSource "Oval" with
+  | some quads, some s =>
+      s.shell == shellByEdges (fun i => decide (12 ≤ i)) quads && s.n == quads.length &&
+      quads.all (fun q => (List.range 4).all (fun j => decide (q.getD j 0 < 22))) &&
+      s.core == [0, 1, 2, 3, 4, 5] && s.shell == [6, 7, 8, 9, 10, 11, 12, 13, 14, 15]
+  | _, _ => false
+
+theorem T_C19_oval_edges_table : ovalEdgeOk = true := by decide +kernel
+
+/-- a point of the placed oval lies on the outline: its distance to the nearer centre is the radius (`R2` = squared radius) -/
+def onOvalOutline {K : Type} [Field K] [LinearOrder K] (c1 c2 : P3 K) (R2 : K) (p : P3 K) : Prop :=
+  (P3.nsq (P3.sub p c1) = R2 ∧ R2 ≤ P3.nsq (P3.sub p c2)) ∨ (P3.nsq (P3.sub p c2) = R2 ∧ R2 ≤ P3.nsq (P3.sub p c1))
+
+/-- the positions `Oval(center_point_1, center_point_2, normal, radius)` computes, in ANY placement: on the outline iff they come
+    from one of the two `get_outer_points` lists -/
+theorem oval_position_on_outline_iff {K : Type} [Field K] [LinearOrder K] [IsStrictOrderedRing K]
+    (c1 c2 u : P3 K) (h k dg radius wd : K) (hk0 : 0 < k) (hk1 : k < 1) (hd0 : 0 < dg) (hd1 : dg < 1) (hh0 : 0 < h)
+    (hh : h * h + h * h = 1) (hr : 0 < radius) (hw : 0 < wd) (hu : P3.nsq u = 1) (hp : P3.dot u (P3.sub c2 c1) = 0)
+    (hR : 0 < P3.nsq (P3.smul (radius / wd) (P3.cross u (P3.sub c2 c1)))) (i : Nat) (hi : i < 22) :
+    onOvalOutline c1 c2 (P3.nsq (P3.smul (radius / wd) (P3.cross u (P3.sub c2 c1))))
+      ((ovalPts c1 c2 u h k dg radius wd).getD i c1) ↔ 12 ≤ i := by
+  have hαt : radius / wd * (wd / radius) = 1 := by
+    have := ne_of_gt hr; have := ne_of_gt hw; field_simp
+  have ht : 0 < wd / radius := div_pos hw hr
+  obtain ⟨hz, hon⟩ := oval_onOutline_iff h k dg (wd / radius) hk0 hk1 hd0 hd1 hh0 hh ht i hi
+  have hρ : P3.dot u (P3.smul (radius / wd) (P3.cross u (P3.sub c2 c1))) = 0 := CBV.C11.dot_cross_self _ _ _
+  have hc2 := CBV.C11.oval_c2 (radius / wd) (wd / radius) u c1 c2 hαt hu hp
+  rw [← hon, CBV.C11.ovalPts_frame c1 c2 u h k dg radius wd hr hw hu hp, CBV.C11.getD_map_frame]
+  generalize (ovalL h k dg (wd / radius)).getD i ⟨0, 0, 0⟩ = p at hz ⊢
+  generalize hρd : P3.smul (radius / wd) (P3.cross u (P3.sub c2 c1)) = ρ at hR hρ hc2 ⊢
+  unfold onOvalOutline onOutlineL
+  have d1 : P3.nsq (P3.sub (frame c1 ρ u p) c1) = (p.x * p.x + p.y * p.y) * P3.nsq ρ := by
+    rw [CBV.C11.nsq_frame _ _ _ _ hu hρ, hz]; ring
+  have d2 : P3.nsq (P3.sub (frame c1 ρ u p) c2) = (p.x * p.x + (p.y + wd / radius) * (p.y + wd / radius)) * P3.nsq ρ := by
+    conv => lhs; rw [hc2]
+    rw [nsq_frame_sub _ _ _ _ _ hu hρ, hz]; ring
+  rw [d1, d2]
+  have eqv : ∀ A : K, (A * P3.nsq ρ = P3.nsq ρ ↔ A = 1) := by
+    intro A
+    constructor
+    · intro e
+      have e' : (A - 1) * P3.nsq ρ = 0 := by linear_combination e
+      rcases mul_eq_zero.mp e' with h0 | h0
+      · linarith
+      · exact absurd h0 (ne_of_gt hR)
+    · intro e; rw [e]; ring
+  have lev : ∀ B : K, (P3.nsq ρ ≤ B * P3.nsq ρ ↔ 1 ≤ B) := by
+    intro B
+    constructor
+    · intro e
+      by_contra hlt
+      have : B * P3.nsq ρ < 1 * P3.nsq ρ := mul_lt_mul_of_pos_right (not_le.mp hlt) hR
+      linarith
+    · intro e
+      have : 1 * P3.nsq ρ ≤ B * P3.nsq ρ := mul_le_mul_of_nonneg_right e hR.le
+      linarith
+  rw [eqv, eqv, lev, lev]
+
+/-- **Oval in ANY placement** (two centres, unit normal ⊥ c1 → c2, radius > 0, `wd` > 0 the witness of `|normal × (c2 − c1)|`, any
+    ordered field with `2h² = 1`, `0 < core_ratio, diagonal_ratio < 1`): a face is in `shell` iff it has a side both ends of which lie
+    on the outline (distance to the nearer centre = radius) -/
+theorem T_C19_oval_shell_iff_outline_edge {K : Type} [Field K] [LinearOrder K] [IsStrictOrderedRing K]
+    (c1 c2 u : P3 K) (h k dg radius wd : K) (hk0 : 0 < k) (hk1 : k < 1) (hd0 : 0 < dg) (hd1 : dg < 1) (hh0 : 0 < h)
+    (hh : h * h + h * h = 1) (hr : 0 < radius) (hw : 0 < wd) (hu : P3.nsq u = 1) (hp : P3.dot u (P3.sub c2 c1) = 0)
+    (hR : 0 < P3.nsq (P3.smul (radius / wd) (P3.cross u (P3.sub c2 c1))))
+    (quads : List (List Nat)) (s : SketchIdx)
+    (hq : lookup "Oval" CBV.Gen.c19QuadMaps = some quads) (hs : sketchFromSource "Oval" = some s) (f : Nat) (hf : f < s.n) :
+    f ∈ s.shell ↔
+      ∃ j, j < 4 ∧
+        onOvalOutline c1 c2 (P3.nsq (P3.smul (radius / wd) (P3.cross u (P3.sub c2 c1))))
+          ((ovalPts c1 c2 u h k dg radius wd).getD ((quads.getD f []).getD j 0) c1) ∧
+        onOvalOutline c1 c2 (P3.nsq (P3.smul (radius / wd) (P3.cross u (P3.sub c2 c1))))
+          ((ovalPts c1 c2 u h k dg radius wd).getD ((quads.getD f []).getD ((j + 1) % 4) 0) c1) := by
+  have hT := T_C19_oval_edges_table
+  simp only [ovalEdgeOk, hq, hs, Bool.and_eq_true, beq_iff_eq, List.all_eq_true, List.mem_range, decide_eq_true_eq] at hT
+  obtain ⟨⟨⟨⟨hshell, hn⟩, hidx⟩, _⟩, _⟩ := hT
+  have hfl : f < quads.length := hn ▸ hf
+  have hmem : quads.getD f [] ∈ quads := by
+    rw [List.getD_eq_getElem?_getD, List.getElem?_eq_getElem hfl]
+    exact List.getElem_mem hfl
+  rw [hshell]
+  simp only [shellByEdges, List.mem_filter, List.mem_range]
+  rw [edgeOn_iff (fun i => onOvalOutline c1 c2 (P3.nsq (P3.smul (radius / wd) (P3.cross u (P3.sub c2 c1))))
+      ((ovalPts c1 c2 u h k dg radius wd).getD i c1))
+    (fun i => decide (12 ≤ i)) 22
+    (fun i hi => by
+      rw [oval_position_on_outline_iff c1 c2 u h k dg radius wd hk0 hk1 hd0 hd1 hh0 hh hr hw hu hp hR i hi]
+      simp)
+    (quads.getD f []) (fun j hj => hidx _ hmem j hj)]
+  exact ⟨fun h => h.2, fun h => ⟨hfl, h⟩⟩
+
+/-- non-vacuity of the hypotheses over ℝ: `h = √2/2`, ratios 4/5 and 9/10, centres (0,0,0) and (3,0,0), normal (0,0,1), radius 1,
+    `wd = |normal × (c2 − c1)| = 3` -/
+example : ∃ h : ℝ, 0 < h ∧ h * h + h * h = 1 ∧ P3.nsq (⟨0, 0, 1⟩ : P3 ℝ) = 1 ∧
+    P3.dot (⟨0, 0, 1⟩ : P3 ℝ) (P3.sub ⟨3, 0, 0⟩ ⟨0, 0, 0⟩) = 0 ∧
+    0 < P3.nsq (P3.smul ((1 : ℝ) / 3) (P3.cross ⟨0, 0, 1⟩ (P3.sub ⟨3, 0, 0⟩ ⟨0, 0, 0⟩))) := by
+  have hs : Real.sqrt 2 * Real.sqrt 2 = 2 := Real.mul_self_sqrt (by norm_num)
+  have hs0 : 0 < Real.sqrt 2 := Real.sqrt_pos.mpr (by norm_num)
+  refine ⟨Real.sqrt 2 / 2, by positivity, by nlinarith, ?_, ?_, ?_⟩
+  · norm_num [P3.nsq, P3.dot]
+  · norm_num [P3.dot, P3.sub]
+  · norm_num [P3.nsq, P3.dot, P3.sub, P3.smul, P3.cross]
+
+end oval
 
 /-! ### round sketches and shapes: `decide` on the tables generated from the current source -/
 
